@@ -186,6 +186,12 @@ func c03(r *rand.Rand, tier string, tr *trace.Buf, extra map[string]interface{})
 				}
 			}
 			e.MsgIntact = string(msg) == string(orig)
+			if e.Iters == nil { // a call that never entered the rejection loop: an empty list, not a JSON null
+				e.Iters = []iter{}
+			}
+			if e.SealIters == nil {
+				e.SealIters = []iter{}
+			}
 			tr.Emit(e)
 			iterHist[len(e.Iters)]++
 			for _, it := range e.Iters {
